@@ -121,6 +121,10 @@ def do_op(cfg, op, form, enforce, user):
         if key.is_unlocked:
             return ('ok', 'still-unlocked-after-failed-unlock')
     ukw = {'user': 'User %d' % user} if user is not None else {}
+    if noid:
+        # without an identity there are no preferences to take a hash from: name one, so that a refusal is the identity rule's doing
+        from pgpy.constants import HashAlgorithm
+        ukw['hash'] = HashAlgorithm.SHA256
     target = keypool.pgpy_key(keypool.ref_cert('ed25519-2', secret=False))
 
     def run():
@@ -133,7 +137,7 @@ def do_op(cfg, op, form, enforce, user):
         if op == 'selfcert':
             u = pgpy.PGPUID.new('First Identity')
             u._parent = key
-            return key.certify(u)
+            return key.certify(u, **({'hash': ukw['hash']} if 'hash' in ukw else {}))
         if op == 'bind':
             key.add_subkey(keypool.pgpy_key(wire.build_packet(5, keypool.secret_body('ecdh-p384-0'))), usage={pgpy.constants.KeyFlags.EncryptStorage})
             return list(key.subkeys.values())[-1]
